@@ -35,13 +35,14 @@ class C04(Prop):
     def strategy(self, tier):
         numbers = st.one_of(gens.finite_doubles(), gens.finite_doubles(), gens.finite_doubles(), gens.top_doubles())
         leaves_b = gens.scalars_built(strings=st.one_of(gens.byte_strings(16), gens.escapey_strings(), gens.invalid_utf8_strings()), numbers=numbers)
-        leaves_u = gens.scalars_built(strings=gens.with_long(st.one_of(gens.utf8_strings(10), gens.escapey_strings())), numbers=numbers)
+        leaves_u = gens.scalars_built(strings=gens.with_long(st.one_of(gens.utf8_strings(10), gens.escapey_strings()), 10), numbers=numbers)
         keys_b = st.one_of(gens.byte_strings(6), gens.ascii_keys(3), gens.escapey_strings(4), gens.invalid_utf8_strings(4))
         keys_u = gens.with_long(st.one_of(gens.utf8_strings(5), gens.ascii_keys(3), gens.escapey_strings(4)), 120)
         tree = st.one_of(
             gens.shaped_documents(leaves_b, keys_b, max_leaves=16).map(lambda d: {"kind": "tree", "jv": d, "utf8": False}),
             gens.shaped_documents(leaves_u, keys_u, max_leaves=16).map(lambda d: {"kind": "tree", "jv": d, "utf8": True}),
             numbers.map(lambda d: {"kind": "tree", "jv": ["N", d], "utf8": True}),
+            gens.long_string_documents(gens.shaped_documents(leaves_u, keys_u, max_leaves=3)).map(lambda d: {"kind": "tree", "jv": d, "utf8": True}),
             st.tuples(st.sampled_from(["[", "{", "[{"]), leaves_u).map(lambda t: {"kind": "tree", "jv": ["D", t[0], ["limit", 0], t[1]], "utf8": True}),
             # shallow, but more containers in total than the parser's nesting limit
             st.tuples(st.sampled_from([["O", []], ["A", []], ["O", [[b"k", ["A", []]]]]]), st.sampled_from([999, 1000, 1001, 1200, 2050]),
